@@ -1,4 +1,7 @@
 import CoxeterVerif.Vec
+import CoxeterVerif.Model.ConvexPolyhedron
+import CoxeterVerif.Model.Polyhedron
+import CoxeterVerif.Model.Polygon
 /-!
   # Model of the representation code of coxeter (property C19)
 
@@ -615,5 +618,413 @@ def toHoomdRaw (M : Meas α) : Shape α → Except String (Dict α × Shape α)
 def toHoomd (M : Meas α) (s : Shape α) : Except String (Dict α × Shape α) := do
   let (h, s') ← toHoomdRaw M s
   pure (resolve ⟨s'.verts, V3.zero⟩ h, s')
+
+/-! ## `to_hoomd` on objects WITH their caches; the getters are the measure models of C01 / C02 / C04
+
+  The sections above take the measure getters as parameters (`Meas`).  Here the objects carry the
+  state the real getters read, and the getters are the measure models themselves
+  (`Model/ConvexPolyhedron.lean`, `Model/Polyhedron.lean`, `Model/Polygon.lean`):
+
+  * `CPObj` — a `ConvexPolyhedron`: `_vertices`, `_simplices`, and the CACHES `_centroid`, `_volume`,
+    `_simplex_equations[:, :3]` that `centroid`, `volume`, `inertia_tensor` read; the centroid setter
+    refreshes them in the order of the code (`_centroid_from_triangulated_surface` divides by the
+    `_volume` of BEFORE the move, `_calculate_signed_volume` comes last);
+  * `PHObj` — a general `Polyhedron`: `_vertices`, `_faces`, the cache `_equations` that `volume`
+    reads (`sum(-d * face_area) / 3`), refreshed by `_find_equations()` in the centroid setter; the
+    triangles `polytri` yields for the faces are index triples (external);
+  * polygons have no cache: `measPolygon` instantiates `Meas` with the getters of `Model/Polygon.lean`.
+
+  `to_hoomd` is a STEP of these objects: it returns the dict and the object it leaves behind, so that
+  a second call (or any later query) starts from whatever the first one left. -/
+
+/-- `vertices[simplices]`: rows of index triples (an index outside the array drops the row; Python:
+    IndexError — Qhull / polytri only produce valid indices) -/
+def trisOf (vs : List (V3 α)) (simp : List (Nat × Nat × Nat)) : List (Tri α) :=
+  simp.filterMap fun s =>
+    match vs[s.1]?, vs[s.2.1]?, vs[s.2.2]? with
+    | some a, some b, some c => some ⟨a, b, c⟩
+    | _, _, _ => none
+
+/-- `vertices[face]` -/
+def pick (vs : List (V3 α)) (f : List Nat) : List (V3 α) := f.filterMap fun i => vs[i]?
+
+/-- `ndarray.tolist()` of a (3,3) array -/
+def m3rows (I : M3 α) : List (List α) :=
+  [[I.xx, I.xy, I.xz], [I.yx, I.yy, I.yz], [I.zx, I.zy, I.zz]]
+
+/-- the sums of `ConvexPolyhedron._compute_inertia_tensor` over per-simplex data
+    (normal, 2·area of the centred triangle, centred triangle) -/
+def inertiaFromData (data : List (V3 α × α × Tri α)) : M3 α :=
+  let inn (s0 s1 : Nat) : α :=
+    Scalar.sum (data.map fun d => CP.innTerm d.1 d.2.1 d.2.2 s0 s1) / lit 6
+  let inm (s0 s1 : Nat) : α :=
+    -(Scalar.sum (data.map fun d => CP.inmTerm d.1 d.2.1 d.2.2 s0 s1)) / lit 8
+  let ixx := inn 1 2
+  let ixy := inm 0 1
+  let ixz := inm 0 2
+  let iyy := inn 0 2
+  let iyz := inm 1 2
+  let izz := inn 0 1
+  ⟨ixx, ixy, ixz, ixy, iyy, iyz, ixz, iyz, izz⟩
+
+/-- `_compute_inertia_tensor(centered=True)` as coded: `abc = vertices[simplices] - centroid`,
+    `n = self._simplex_equations[:, :3]` (the CACHED normals, row by row) -/
+def inertiaCentredN (S : List (Tri α)) (normals : List (V3 α)) (c : V3 α) : M3 α :=
+  inertiaFromData (List.zipWith (fun t n =>
+    let tc := t.map (· - c)
+    (n, CP.triArea tc * lit 2, tc)) S normals)
+
+/-- the state of a `ConvexPolyhedron` object that its measure getters read -/
+structure CPObj (α : Type) where
+  verts : List (V3 α)
+  simplices : List (Nat × Nat × Nat)
+  faces : List (List Nat)
+  /-- `_centroid` -/
+  centroid : V3 α
+  /-- `_volume` -/
+  volume : α
+  /-- `_simplex_equations[:, :3]` -/
+  snormals : List (V3 α)
+
+namespace CPObj
+def tris (o : CPObj α) : List (Tri α) := trisOf o.verts o.simplices
+
+/-- `inertia_tensor`: `translate_inertia_tensor(self.center, self._compute_inertia_tensor(), self.volume)` -/
+def inertiaTensor (o : CPObj α) : M3 α :=
+  CP.translateInertia o.centroid (inertiaCentredN o.tris o.snormals o.centroid) o.volume
+
+/-- the centroid setter of `ConvexPolyhedron`, statement by statement:
+    `_vertices += value - self.centroid` (the cached centroid); `_find_equations()` (face planes: not read
+    by the getters modelled here); `_find_simplex_equations()`; `_centroid_from_triangulated_surface()`
+    (divides by `self._volume` as cached BEFORE the move); `_calculate_signed_volume()` -/
+def setCentroid (o : CPObj α) (value : V3 α) : CPObj α :=
+  let vs := o.verts.map fun v => v + (value - o.centroid)
+  let S := trisOf vs o.simplices
+  { o with verts := vs, snormals := S.map CP.simplexNormal, centroid := CP.centroid S o.volume,
+           volume := CP.volume S }
+
+/-- the object a constructor call on the vertex array `vs` produces (all caches fresh) -/
+def fresh (simp : List (Nat × Nat × Nat)) (faces : List (List Nat)) (vs : List (V3 α)) : CPObj α :=
+  let S := trisOf vs simp
+  ⟨vs, simp, faces, CP.centroid S (CP.volume S), CP.volume S, S.map CP.simplexNormal⟩
+
+/-- attribute reads of `to_json` inside `to_hoomd`; `radius` and the volume of the rounded body are
+    those of the spheropolyhedron that owns this object (`extra`) -/
+def getattr (o : CPObj α) (extra : String → Option (Val α)) (a : String) : Except String (Val α) :=
+  match extra a with
+  | some v => .ok v
+  | none =>
+    if a == "vertices" then .ok .live
+    else if a == "faces" then .ok (.idx o.faces)
+    else if a == "centroid" then .ok (.vec (v3list o.centroid))
+    else if a == "volume" then .ok (.num o.volume)
+    else if a == "inertia_tensor" then .ok (.mat (m3rows o.inertiaTensor))
+    else .error "AttributeError"
+
+/-- `Polyhedron.to_hoomd` inherited by `ConvexPolyhedron`, on the object with its caches -/
+def toHoomd (o : CPObj α) : Except String (Dict α × CPObj α) := do
+  let old := o.centroid
+  let o1 := o.setCentroid V3.zero
+  let data ← toJson (o1.getattr fun _ => none)
+    ["vertices", "faces", "centroid", "volume", "inertia_tensor"] []
+  let h := mapDictKeys data hoomdDictMapping
+  let v ← getItem h "vertices"
+  let h := Dict.set h "vertices" (copyOf ⟨o1.verts, o1.centroid⟩ v)
+  let h := Dict.set h "sweep_radius" (.num (lit 0))
+  let o2 := o1.setCentroid old
+  pure (h, o2)
+
+/-- `ConvexSpheropolyhedron.to_hoomd`: `o` is `self._polyhedron`, `r` the rounding radius, `vol` the
+    `volume` getter of the rounded body (Steiner formula of C11: a function of the core object and `r`) -/
+def spheroToHoomd (vol : CPObj α → α → α) (r : α) (o : CPObj α) : Except String (Dict α × CPObj α) := do
+  let old := o.centroid
+  let o1 := o.setCentroid V3.zero
+  let data ← toJson (o1.getattr fun a =>
+      if a == "radius" then some (.num r) else if a == "volume" then some (.num (vol o1 r)) else none)
+    ["vertices", "radius", "volume"] []
+  let h := mapDictKeys data hoomdDictMapping
+  let v ← getItem h "vertices"
+  let h := Dict.set h "vertices" (copyOf ⟨o1.verts, o1.centroid⟩ v)
+  let h := Dict.set h "centroid" (.vec [lit 0, lit 0, lit 0])
+  let o2 := o1.setCentroid old
+  pure (h, o2)
+end CPObj
+
+/-- `Polyhedron._find_equations`: per face the plane through its first three vertices -/
+def findEquations (vs : List (V3 α)) (faces : List (List Nat)) : List (V3 α × α) :=
+  faces.map fun f =>
+    match pick vs f with
+    | v0 :: v1 :: v2 :: _ => Poly3.faceEquation v0 v1 v2
+    | _ => (V3.zero, lit 0)
+
+/-- `Polyhedron.get_face_area()`: `ConvexPolygon(self.vertices[face]).area` per face (its normal is the
+    one computed from the first three vertices of the face) -/
+def faceAreas (vs : List (V3 α)) (faces : List (List Nat)) : List α :=
+  faces.map fun f => Poly2.area (pick vs f) (computedNormal (pick vs f))
+
+/-- the state of a general `Polyhedron` object that its measure getters read -/
+structure PHObj (α : Type) where
+  verts : List (V3 α)
+  faces : List (List Nat)
+  /-- the triangles `polytri.triangulate` yields for the faces, as index triples -/
+  tri : List (Nat × Nat × Nat)
+  /-- `_equations` (normal, d) per face -/
+  eqs : List (V3 α × α)
+
+namespace PHObj
+def tris (o : PHObj α) : List (Tri α) := trisOf o.verts o.tri
+/-- `centroid` (Eberly, recomputed on every read) -/
+def centroid (o : PHObj α) : V3 α := Poly3.centroid o.tris
+/-- `volume`: `np.sum(-self._equations[:, 3] * self.get_face_area()) / 3` -/
+def volume (o : PHObj α) : α :=
+  Poly3.volume (List.zipWith (fun e a => (e.2, a)) o.eqs (faceAreas o.verts o.faces))
+/-- `inertia_tensor` -/
+def inertiaTensor (o : PHObj α) : M3 α := Poly3.inertia o.tris o.centroid o.volume
+/-- centroid setter: `_vertices += value - self.centroid; self._find_equations()` -/
+def setCentroid (o : PHObj α) (value : V3 α) : PHObj α :=
+  let vs := o.verts.map fun v => v + (value - o.centroid)
+  { o with verts := vs, eqs := findEquations vs o.faces }
+def fresh (faces : List (List Nat)) (tri : List (Nat × Nat × Nat)) (vs : List (V3 α)) : PHObj α :=
+  ⟨vs, faces, tri, findEquations vs faces⟩
+def getattr (o : PHObj α) (a : String) : Except String (Val α) :=
+  if a == "vertices" then .ok .live
+  else if a == "faces" then .ok (.idx o.faces)
+  else if a == "centroid" then .ok (.vec (v3list o.centroid))
+  else if a == "volume" then .ok (.num o.volume)
+  else if a == "inertia_tensor" then .ok (.mat (m3rows o.inertiaTensor))
+  else .error "AttributeError"
+/-- `Polyhedron.to_hoomd` on the object with its `_equations` -/
+def toHoomd (o : PHObj α) : Except String (Dict α × PHObj α) := do
+  let old := o.centroid
+  let o1 := o.setCentroid V3.zero
+  let data ← toJson o1.getattr ["vertices", "faces", "centroid", "volume", "inertia_tensor"] []
+  let h := mapDictKeys data hoomdDictMapping
+  let v ← getItem h "vertices"
+  let h := Dict.set h "vertices" (copyOf ⟨o1.verts, V3.zero⟩ v)
+  let h := Dict.set h "sweep_radius" (.num (lit 0))
+  let o2 := o1.setCentroid old
+  pure (h, o2)
+end PHObj
+
+/-- the getters of a `Polygon` / `ConvexPolygon` with stored normal `n`; `R` = kabsch matrix for `n`,
+    `R2` = kabsch matrix for ẑ (both external, functions of the normal only) -/
+def measPolygon (n : V3 α) (R R2 : M3 α) : Meas α where
+  cen := fun vs => Poly2.centroid vs n R
+  scalar := fun _ vs => Poly2.area vs n
+  tensor := fun vs => m3rows (Poly2.inertiaTensor vs n R R2)
+  scalarC := fun _ _ => lit 0
+  tensorC := fun _ => []
+
+/-- the getters of a fresh `ConvexPolyhedron` on a vertex array (what `CPObj.fresh` caches) -/
+def measCP (simp : List (Nat × Nat × Nat)) : Meas α where
+  cen := fun vs => (CPObj.fresh simp [] vs).centroid
+  scalar := fun _ vs => (CPObj.fresh simp [] vs).volume
+  tensor := fun vs => m3rows (CPObj.fresh simp [] vs).inertiaTensor
+  scalarC := fun _ _ => lit 0
+  tensorC := fun _ => []
+
+/-- the getters of a fresh `Polyhedron` on a vertex array -/
+def measPH (faces : List (List Nat)) (tri : List (Nat × Nat × Nat)) : Meas α where
+  cen := fun vs => (PHObj.fresh faces tri vs).centroid
+  scalar := fun _ vs => (PHObj.fresh faces tri vs).volume
+  tensor := fun vs => m3rows (PHObj.fresh faces tri vs).inertiaTensor
+  scalarC := fun _ _ => lit 0
+  tensorC := fun _ => []
+
+/-- a history of public calls on one object -/
+inductive HOp (α : Type) where
+  | toHoomd
+  | setCentroid (value : V3 α)
+
+/-- run a history on a `ConvexPolyhedron`; collects the dicts the `to_hoomd` calls returned (as the
+    caller sees them: vertex arrays are copies) -/
+def CPObj.run : List (HOp α) → CPObj α → Except String (List (Dict α) × CPObj α)
+  | [], o => .ok ([], o)
+  | .toHoomd :: rest, o => do
+      let (d, o') ← o.toHoomd
+      let (ds, o'') ← CPObj.run rest o'
+      pure (d :: ds, o'')
+  | .setCentroid v :: rest, o => CPObj.run rest (o.setCentroid v)
+
+def PHObj.run : List (HOp α) → PHObj α → Except String (List (Dict α) × PHObj α)
+  | [], o => .ok ([], o)
+  | .toHoomd :: rest, o => do
+      let (d, o') ← o.toHoomd
+      let (ds, o'') ← PHObj.run rest o'
+      pure (d :: ds, o'')
+  | .setCentroid v :: rest, o => PHObj.run rest (o.setCentroid v)
+
+/-! ## the TEXT of `__repr__` as tokens, and an evaluator for exactly that syntax
+
+  `__repr__` is an f-string: `coxeter.shapes.<Name>(k1=<v1>, k2=<v2>, …)` where every `<v>` is what
+  `str()` prints for a float / int or for `ndarray.tolist()` — a Python list display of floats, nested
+  once for `vertices`, of ints for `faces`.  How the DIGITS of a float are chosen is outside the model
+  (`float(repr(x)) == x` is checked per run); what the model keeps is the token structure:
+
+  * a negative number prints as `-` followed by a literal (Python parses it as unary minus),
+  * a non-finite number prints as the bare NAME `inf` / `nan` (after `-` for `-inf`), which `eval`
+    looks up in its environment — with only `coxeter` bound that is a `NameError`,
+  * integers (faces, a radius given as an int) print without a point.
+
+  `NumFmt` is the classification of a scalar that `float.__repr__` acts on (sign bit, finite / inf /
+  nan): an explicit argument, like `Ext`.  The dotted function name is one token. -/
+
+inductive NumKind where
+  | fin (neg : Bool)
+  | nan
+  | inf (neg : Bool)
+
+abbrev NumFmt (α : Type) := α → NumKind
+
+inductive Tok (α : Type) where
+  | name (s : String)
+  | lpar | rpar | lbr | rbr | comma | eq | minus
+  /-- unsigned float literal (digits, point, exponent) -/
+  | num (x : α)
+  /-- unsigned integer literal -/
+  | int (n : Nat)
+
+namespace Tok
+def isRbr : Tok α → Bool
+  | .rbr => true
+  | _ => false
+def isRpar : Tok α → Bool
+  | .rpar => true
+  | _ => false
+end Tok
+
+/-- `str(x)` of a float -/
+def prNum (nk : NumFmt α) (x : α) : List (Tok α) :=
+  match nk x with
+  | .fin false => [.num x]
+  | .fin true => [.minus, .num (-x)]
+  | .nan => [.name "nan"]
+  | .inf false => [.name "inf"]
+  | .inf true => [.minus, .name "inf"]
+
+def prInt (n : Nat) : List (Tok α) := [.int n]
+
+/-- items separated by `, ` -/
+def commaSep {β : Type} (pr : β → List (Tok α)) : List β → List (Tok α)
+  | [] => []
+  | [x] => pr x
+  | x :: y :: r => pr x ++ .comma :: commaSep pr (y :: r)
+
+/-- a Python list display -/
+def printList {β : Type} (pr : β → List (Tok α)) (xs : List β) : List (Tok α) :=
+  .lbr :: commaSep pr xs ++ [.rbr]
+
+/-- the text of a value inside `__repr__` (`str` / `live` are never printed) -/
+def printVal (nk : NumFmt α) : Val α → List (Tok α)
+  | .num x => prNum nk x
+  | .vec v => printList (prNum nk) v
+  | .mat m => printList (printList (prNum nk)) m
+  | .idx f => printList (printList prInt) f
+  | .str _ => []
+  | .live => []
+
+def printKw (nk : NumFmt α) (e : String × Val α) : List (Tok α) := .name e.1 :: .eq :: printVal nk e.2
+
+/-- `repr(shape)` as tokens -/
+def printCall (nk : NumFmt α) (c : Call α) : List (Tok α) :=
+  .name c.fn :: .lpar :: commaSep (printKw nk) c.kwargs ++ [.rpar]
+
+def reprTokens (nk : NumFmt α) (s : Shape α) : List (Tok α) := printCall nk (reprCall s)
+
+/-! ### evaluator -/
+
+abbrev Parser (α β : Type) := List (Tok α) → Except String (β × List (Tok α))
+
+/-- a number: literal, `-` literal; a NAME here is looked up by `eval` → `NameError` -/
+def parseNumber : Parser α α
+  | .num x :: r => .ok (x, r)
+  | .int n :: r => .ok (Scalar.ofNat n, r)
+  | .minus :: .num x :: r => .ok (-x, r)
+  | .minus :: .int n :: r => .ok (-(Scalar.ofNat n), r)
+  | .name _ :: _ => .error "NameError"
+  | .minus :: .name _ :: _ => .error "NameError"
+  | _ => .error "SyntaxError"
+
+/-- an index: an integer literal (a float where an index is needed: `TypeError` in the constructor) -/
+def parseIndex : Parser α Nat
+  | .int n :: r => .ok (n, r)
+  | .num _ :: _ => .error "TypeError"
+  | .name _ :: _ => .error "NameError"
+  | _ => .error "SyntaxError"
+
+/-- `item (, item)* close` — `fuel` bounds the number of items -/
+def sepBy {β : Type} (p : Parser α β) (close : Tok α → Bool) :
+    Nat → List (Tok α) → Except String (List β × List (Tok α))
+  | 0, _ => .error "SyntaxError"
+  | fuel + 1, ts =>
+    match p ts with
+    | .error e => .error e
+    | .ok (x, r) =>
+      match r with
+      | [] => .error "SyntaxError"
+      | t :: r' =>
+        if close t then .ok ([x], r')
+        else match t with
+          | .comma =>
+            match sepBy p close fuel r' with
+            | .ok (xs, r'') => .ok (x :: xs, r'')
+            | .error e => .error e
+          | _ => .error "SyntaxError"
+
+/-- `[` items `]` (possibly empty) -/
+def listOf {β : Type} (p : Parser α β) : Parser α (List β)
+  | .lbr :: ts =>
+    match ts with
+    | .rbr :: r => .ok ([], r)
+    | _ => sepBy p Tok.isRbr ts.length ts
+  | _ => .error "SyntaxError"
+
+/-- the value of keyword `k`, in the shape the constructor converts it to: `faces` → lists of
+    indices, a list of lists → rows of floats, a flat list → a vector, otherwise a number -/
+def parseArg (k : String) : Parser α (Val α)
+  | .lbr :: .lbr :: ts =>
+    if k == "faces" then
+      match listOf (listOf parseIndex) (.lbr :: .lbr :: ts) with
+      | .ok (f, r) => .ok (.idx f, r)
+      | .error e => .error e
+    else
+      match listOf (listOf parseNumber) (.lbr :: .lbr :: ts) with
+      | .ok (m, r) => .ok (.mat m, r)
+      | .error e => .error e
+  | .lbr :: .rbr :: r =>
+    if k == "faces" then .ok (.idx [], r) else if k == "vertices" then .ok (.mat [], r) else .ok (.vec [], r)
+  | .lbr :: ts =>
+    match listOf parseNumber (.lbr :: ts) with
+    | .ok (v, r) => .ok (.vec v, r)
+    | .error e => .error e
+  | ts =>
+    match parseNumber ts with
+    | .ok (x, r) => .ok (.num x, r)
+    | .error e => .error e
+
+def parseKw : Parser α (String × Val α)
+  | .name k :: .eq :: ts =>
+    match parseArg k ts with
+    | .ok (v, r) => .ok ((k, v), r)
+    | .error e => .error e
+  | _ => .error "SyntaxError"
+
+/-- the printed text back to a constructor call (nothing may follow the closing parenthesis) -/
+def parseCall : List (Tok α) → Except String (Call α)
+  | .name fn :: .lpar :: ts =>
+    match ts with
+    | [.rpar] => .ok ⟨fn, []⟩
+    | _ =>
+      match sepBy parseKw Tok.isRpar ts.length ts with
+      | .ok (kw, []) => .ok ⟨fn, kw⟩
+      | .ok (_, _ :: _) => .error "SyntaxError"
+      | .error e => .error e
+  | _ => .error "SyntaxError"
+
+/-- `eval(text, {"coxeter": coxeter})` -/
+def evalText (E : Ext α) (ts : List (Tok α)) : Except String (Shape α) :=
+  match parseCall ts with
+  | .ok c => evalCall E c
+  | .error e => .error e
 
 end C19
